@@ -37,7 +37,8 @@ ASSUMPTIONS = [
 ]
 
 FLAGSETS = [(), ("--include-submodules",), ("--include-meson-subprojects",), ("--include-submodules", "--include-meson-subprojects")]
-case_strategy = st.tuples(GT.tree_spec(), st.sampled_from(FLAGSETS), st.booleans(), st.lists(st.integers(0, 1000), min_size=1, max_size=3))
+case_strategy = st.tuples(GT.tree_spec(), st.sampled_from(FLAGSETS), st.booleans(), st.lists(st.integers(0, 1000), min_size=1, max_size=3),
+                          st.integers(0, 3).map(lambda k: k == 0))  # last: project root below the top of the Git work tree
 
 
 def expected(root: Path, spec, flags):
@@ -113,18 +114,29 @@ _LINTFILE = re.compile(r"^(.*): (no license identifier|no copyright notice|read 
 def check_tree(ctx, case):
     spec, flags, mp = case[:3]
     picks = case[3] if len(case) > 3 else [0]
-    root = ctx.fresh_dir()
+    nested = bool(len(case) > 4 and case[4] and spec["git"])
+    base = ctx.fresh_dir()
+    root = base
     copy = None
     copy2 = None
+    copybase = copybase2 = None
     try:
-        GT.materialise(root, spec)
+        if nested:
+            # monorepo layout: the Git work tree starts one level above the project root; reuse is told --root .
+            spec = dict(spec, git=dict(spec["git"], submodules=[]))
+            root = base / "pkg"
+            root.mkdir()
+            GT.materialise(root, spec, git_top=base)
+            flags = tuple(flags) + ("--root", ".")
+        else:
+            GT.materialise(root, spec)
         verdicts = expected(root, spec, flags)
         cov = {p for p, (v, _w) in verdicts.items() if v == RC.COVERED}
         exc = {p for p, (v, _w) in verdicts.items() if v == RC.EXCLUDED}
         unspec = {p for p, (v, _w) in verdicts.items() if v == RC.UNSPEC}
         calshl = {p for p, (v, w) in verdicts.items() if w == "cal-shl-name"}
-        cdict = {"nodes": spec["nodes"], "git": spec["git"], "flags": list(flags), "mp": mp, "picks": list(picks)}
-        labels = [f"git:{bool(spec['git'])}", f"flags:{' '.join(flags) or '-'}"]
+        cdict = {"nodes": spec["nodes"], "git": spec["git"], "flags": [f for f in flags if f not in ("--root", ".")], "mp": mp, "picks": list(picks), "nested": nested}
+        labels = [f"git:{bool(spec['git'])}", f"flags:{' '.join(f for f in flags if f not in ('--root', '.')) or '-'}", f"root-below-worktree-top:{nested}"]
         labels += sorted({f"rule:{w}" for (_v, w) in verdicts.values()})
         if spec["git"] and spec["git"]["submodules"]:
             labels.append("has-submodule")
@@ -175,9 +187,10 @@ def check_tree(ctx, case):
                     obs.add(rel(root, m[1], root))
             judge(obs, "lint-file <every path>")
         # 4. annotate -r . on a throw-away copy
-        copy = ctx.fresh_dir("copy")
-        os.rmdir(copy)
-        GT.copytree(root, copy)
+        copybase = ctx.fresh_dir("copy")
+        os.rmdir(copybase)
+        GT.copytree(base, copybase)
+        copy = copybase / "pkg" if nested else copybase
         before = snapshot(copy)
         res = cli.run([*flags, "annotate", "--copyright", "Verif", "--license", "MIT", "--year", "2020", "--fallback-dot-license", "-r", "."], copy)
         if res.crash is not None:
@@ -200,9 +213,10 @@ def check_tree(ctx, case):
         alldirs = [d for d in alldirs if not os.path.islink(root / d) and os.path.isdir(root / d)]
         if alldirs and res.crash is None:
             chosen = sorted({alldirs[i % len(alldirs)] for i in picks})
-            copy2 = ctx.fresh_dir("copy")
-            os.rmdir(copy2)
-            GT.copytree(root, copy2)
+            copybase2 = ctx.fresh_dir("copy")
+            os.rmdir(copybase2)
+            GT.copytree(base, copybase2)
+            copy2 = copybase2 / "pkg" if nested else copybase2
             before = snapshot(copy2)
             res = cli.run([*flags, "annotate", "--copyright", "Verif", "--license", "MIT", "--year", "2020", "--fallback-dot-license", "-r", *chosen], copy2)
             if res.crash is None and res.code != 2:
@@ -224,16 +238,16 @@ def check_tree(ctx, case):
                     ctx.fail(cdict, f"annotate -r {chosen}: modified {sorted(obs)}, covered files below those directories {sorted(want)}; model says {why}", sig)
                 ctx.label("annotate-r-subdirs")
     finally:
-        tree.rmtree(root)
-        if copy is not None and copy.exists():
-            tree.rmtree(copy)
-        if copy2 is not None and copy2.exists():
-            tree.rmtree(copy2)
+        tree.rmtree(base)
+        if copybase is not None and copybase.exists():
+            tree.rmtree(copybase)
+        if copybase2 is not None and copybase2.exists():
+            tree.rmtree(copybase2)
 
 
 def replay(ctx, case):
     spec = {"nodes": {k: tuple(v) for k, v in case["nodes"].items()}, "git": case["git"]}
-    check_tree(ctx, (spec, tuple(case["flags"]), case.get("mp", False), case.get("picks", [0, 1, 2])))
+    check_tree(ctx, (spec, tuple(case["flags"]), case.get("mp", False), case.get("picks", [0, 1, 2]), case.get("nested", False)))
 
 
 def run(ctx):
